@@ -1,3 +1,6 @@
 SPECIFICATION Spec
+CONSTANTS
+  CBug = "none"
+  NameOrder <- NameOrderDef
 INVARIANT Final
 CHECK_DEADLOCK FALSE
